@@ -4,19 +4,32 @@ Case: journal AST (+ rendered text), price entries in *file order* (+ rendered p
 reference instant, report commodity.  The implementation parses both texts, builds the lookup context as
 the reporters do (verif hook `price_conversion`) and also prints the balance and register reports; the
 Lean model gets the AST and the entries (instants in ns).  The oracle recomputes `rateAt` with Fractions
-from the entries of the case and checks every converted figure, the metadata and the report texts."""
+from the entries of the case and checks every converted figure, the metadata and the report texts.
+
+Journal-level cases (kinds `jr:*`, C07 x C02 / C03 / C13): the same generated journal + price file go through op
+`run` with `want: [txns, balance, register, balgrp]`.  The implementation prints the three reports with the price
+section of the configuration; the Lean model answers `Priced.balanceReport / registerReport / balgrpReport`
+(Model/PricedReports.lean: one price context per report, built from all its transactions) from a `price` block in the
+case.  Compared text-exact: balance rows and deltas, group titles / rows / deltas, the "Commodity Prices" block of each
+report; register entries (instant, code, description, uuid) and rows (account, amount, source commodity, `@ rate`,
+running total, commodity) with the numbers normalised as C03 does.  The oracle converts the implementation's own list
+of accepted postings with the python `rate_at` (Fractions) and checks the printed figures of all three reports."""
 import datetime
+import re
 from decimal import Decimal as D
 from fractions import Fraction as F
 
 import common
-from propbase import PropBase, model_cfg
+import c02
+import c13
+from propbase import PropBase, model_cfg, cmp_status
 
 POOL = ["EUR", "USD", "ACME", "kWh", "He·bar", "£", "Ärt"]
 RATES = ["2", "0.5", "1.25", "120.306155", "0.00012", "3", "1.10", "7.5", "0.99", "10", "1", "2659.645203"]
 ODD_RATES = ["0", "-1", "0.00", "-0.5"]
 OFFSETS = [0, 3600, 7200, -18000, 19800, 20700, -34200, 50400, -43200, 86340, -86340]
 TS_MAX_NS = 253402207200 * 10 ** 9 + 999999999        # jiff Timestamp::MAX = 9999-12-30T22:00:00.999999999Z
+JR_BOUNDARY = ["same-conv-key", "selector"]
 BOUNDARY = ["at-instant", "none-before", "inverse-only", "chain-only", "two-targets", "self-rate", "dup-keys",
             "empty-comm", "in-report-comm", "max-instant", "notations", "given-edge", "unused-report-comm", "lookup-none", "config-error"]
 
@@ -129,7 +142,65 @@ class C07(PropBase):
                 out.append(self.gen_case(rng, kind))
         for _ in range(n):
             out.append(self.gen_case(rng, "random"))
+        # journal-level cases: the three reports with conversion on
+        jper = 10 if tier == "quick" else 200
+        jn = 350 if tier == "quick" else 15000
+        for kind in BOUNDARY:
+            for _ in range(jper):
+                out.append(self.to_run_case(rng, self.gen_case(rng, kind)))
+        for kind in JR_BOUNDARY:
+            for _ in range(jper * 2):
+                out.append(self.to_run_case(rng, self.gen_case(rng, "random"), kind))
+        for _ in range(jn):
+            out.append(self.to_run_case(rng, self.gen_case(rng, "random")))
         return out
+
+    def to_run_case(self, rng, pc, jr_kind=None):
+        """a price-op case as an op `run` case: balance, register and balance-group reports of the same settings"""
+        txns = pc["txns"]
+        lookup = pc["lookup"]
+        rc = pc["report_commodity"]
+        kind = "jr:" + (jr_kind or pc["kind"])
+        if jr_kind == "same-conv-key" and rc is not None and txns:
+            # one transaction posts to the same account in a source commodity (valued in the report commodity through a
+            # closing price, so the transaction balances in the report commodity) *and* in the report commodity itself:
+            # different original keys, same converted key -- NOTE-1 of register_engine; written in either order
+            src = sorted({e["base"] for e in pc["prices"] if e["target"] == rc and e["base"] not in (rc, "")}) or \
+                [c for c in POOL if c != rc][:1]
+            acct = rng.choice(txns)["posts"][0]["acct"]
+            legs = [{"acct": acct, "amount": rng.choice(["1", "2.5", "3", "-10", "0.75"]), "comment": None,
+                     "unit": {"comm": rng.choice(src), "opening": None,
+                              "closing": {"k": "@", "v": rng.choice(["2", "0.5", "1.25"]), "c": rc}}},
+                    {"acct": acct, "amount": rng.choice(["5", "-1.5", "7.25", "100"]), "comment": None,
+                     "unit": {"comm": rc, "opening": None, "closing": None}}]
+            rng.shuffle(legs)
+            t2 = c02.hdr(rng, pc["cfg"], rng.randrange(12))
+            if rng.random() < 0.8:
+                t2["ts"] = dict(rng.choice(txns)["ts"])          # at the instant of another transaction
+            t2["posts"] = legs
+            t2["last"] = {"acct": rng.choice(["e", "x:y", acct + ":z"]), "comment": None}
+            txns = txns + [t2]
+        zone = rng.choice(list(c13.FIXED)) if rng.random() < 0.4 else "UTC"
+        gb = rng.choice(c13.GROUP_BYS)
+        cfg = dict(pc["cfg"])
+        cfg["report_tz"] = zone
+        cfg["group_by"] = gb
+        case = {"op": "run", "kind": kind, "cfg": cfg, "txns": txns,
+                "text": common.render_journal(txns, common.gen_layout(rng)) if txns is not pc["txns"] else pc["text"],
+                "prices": pc["prices"], "lookup": lookup, "before_ns": pc["before_ns"], "before": pc["before"],
+                "report_commodity": rc, "want": ["txns", "balance", "register", "balgrp"],
+                "mgroup_by": gb, "zone": zone, "mreport_tz": {"off": c13.FIXED[zone]}}
+        if jr_kind == "selector" or (jr_kind is None and rng.random() < 0.2):
+            names = c02.all_row_names(txns)
+            for rep in ("balance", "register", "balgrp"):
+                if rng.random() < 0.75 and names:
+                    sel = rng.sample(names, min(len(names), rng.randrange(1, max(2, len(names)))))
+                    if rng.random() < 0.2:
+                        sel.append(rng.choice(["zz", "a:nope", sel[0] + "x"]))
+                    sel = sorted(set(sel))
+                    cfg["sel_" + rep] = ["^" + c02.rx_escape(x) + "$" for x in sel]
+                    case["msel_" + rep] = sel
+        return case
 
     def gen_case(self, rng, kind):
         cfg = {}
@@ -257,9 +328,30 @@ class C07(PropBase):
                 "report_commodity": rc}
 
     def impl_case(self, case):
+        if case.get("op") == "run":
+            return {k: case[k] for k in ("op", "cfg", "text", "want") if k in case}
         return {k: case[k] for k in ("op", "cfg", "text") if k in case}
 
+    def price_block(self, case):
+        """the `price` object of a journal-level model case: what op `price` takes, as one object"""
+        b = {"lookup": case.get("lookup"), "report_commodity": case.get("report_commodity"),
+             "prices": [{k: e[k] for k in ("ns", "base", "rate", "target", "tok") if k in e} for e in case["prices"]],
+             "tz_offset_s": cfg_offset(case.get("cfg", {}))}
+        if case.get("before") is not None:
+            b["before"] = case["before"]
+        elif case.get("before_ns") is not None:
+            b["before"] = {"ns": case["before_ns"]}
+        return b
+
     def model_case(self, case):
+        if case.get("op") == "run":
+            c = {"op": "run", "cfg": model_cfg(case.get("cfg", {})), "txns": case["txns"],
+                 "want": ["balance", "register", "balgrp"], "price": self.price_block(case),
+                 "mgroup_by": case["mgroup_by"], "mreport_tz": case["mreport_tz"]}
+            for k in ("msel_balance", "msel_register", "msel_balgrp"):
+                if case.get(k):
+                    c[k] = case[k]
+            return c
         c = {k: case.get(k) for k in ("op", "txns", "lookup", "report_commodity")}
         # the model resolves the timestamp tokens itself (Model/Time.lean); corpus cases may carry instants only
         c["prices"] = [{k: e[k] for k in ("ns", "base", "rate", "target", "tok") if k in e} for e in case["prices"]]
@@ -274,6 +366,8 @@ class C07(PropBase):
 
     # -- correspondence
     def compare(self, case, impl, model):
+        if case.get("op") == "run":
+            return self.compare_run(case, impl, model)
         mi, ii = model.get("r"), impl.get("r")
         if mi == "UNDEF":
             return "skip"
@@ -305,6 +399,8 @@ class C07(PropBase):
 
     # -- the property on the implementation alone
     def oracle(self, case, impl):
+        if case.get("op") == "run":
+            return self.oracle_run(case, impl)
         r = impl.get("r")
         if r in ("PANIC", "ABORT", "TIMEOUT"):
             return None      # C15's business
@@ -472,6 +568,259 @@ class C07(PropBase):
                         str(row), o["acct"], o["amount"], exp_base, exp_rate, totals[k], c["comm"])}
         return None
 
+    # ---------------------------------------------------------------------------------------------
+    # journal-level cases (op `run`): tie
+    def compare_run(self, case, impl, model):
+        mi, ii = model.get("r"), impl.get("r")
+        if mi == "UNDEF":
+            return "skip"
+        if mi == "BADCASE" or ii in ("BADCASE", "GARBLED", "ABORT", "TIMEOUT"):
+            return "driver problem: impl=%s model=%s %s %s" % (ii, mi, impl.get("msg", ""), model.get("msg", ""))
+        outs = model.get("out", {}) if mi == "OK" else {}
+        if ii == "CFGERR":
+            # `Settings::try_from` rejects the price configuration before anything is loaded
+            st = {k: (outs.get(k) or {}).get("r") for k in ("balance", "register", "balgrp")}
+            if mi == "OK" and all(v in ("CFGERR", "UNDEF") for v in st.values()):
+                return "skip" if "UNDEF" in st.values() else None
+            return "price configuration rejected by the implementation only: model=%s %s (%s)" % (mi, st, (impl.get("msg") or "")[:200])
+        if ii != mi:
+            return "load status differs: impl=%s model=%s (%s)" % (ii, mi, (impl.get("msg") or "")[:200])
+        if ii != "OK":
+            return None
+        off = c13.FIXED[case.get("zone", "UTC")]
+        skipped = 0
+        for kind in ("balance", "register", "balgrp"):
+            a, b = impl["out"][kind], outs[kind]
+            if b.get("r") == "UNDEF":
+                skipped += 1
+                continue
+            ar = a.get("r")
+            if kind == "balgrp" and ar == "PANIC":
+                ar = "ERR"          # `expect` inside balance_groups: the model says ERR
+            if ar != b.get("r"):
+                return "%s status differs: impl=%s model=%s (%s)" % (kind, a.get("r"), b.get("r"), str(a.get("msg"))[:200])
+            if ar != "OK":
+                continue
+            # metadata block of the report = records of the context the figures were converted with
+            got = parse_price_metadata(a["v"])
+            exp = [(fmt_full_utc(int(m["ns"]) + off * 10 ** 9) if m["ns"] is not None else "At txn time", m["source"],
+                    (m["rate"] if m["rate"] is not None else "-") + " " + m["target"]) for m in b.get("meta", [])]
+            if got != exp:
+                return "%s: price metadata block differs: impl=%s model=%s" % (kind, str(got)[:400], str(exp)[:400])
+            d = getattr(self, "cmp_" + kind)(a["v"], b["v"], off)
+            if d:
+                return d
+        return "skip" if skipped == 3 else None
+
+    def cmp_balance(self, text, mv, off):
+        parsed = common.parse_balance_report(text)
+        if parsed is None:
+            return "balance report without title: %r" % text[:300]
+        return cmp_rows("balance", parsed[0], parsed[1], mv)
+
+    def cmp_balgrp(self, text, mv, off):
+        groups = common.parse_balgrp_report(text)
+        if groups is None:
+            return "balance-group report without title: %r" % text[:300]
+        if [g["title"] for g in groups] != [g["title"] for g in mv]:
+            return "group titles differ: impl=%s model=%s" % ([g["title"] for g in groups], [g["title"] for g in mv])
+        for g, m in zip(groups, mv):
+            d = cmp_rows("group " + str(g["title"]), g["rows"], g["deltas"], m)
+            if d:
+                return d
+        return None
+
+    def cmp_register(self, text, mv, off):
+        ents = parse_register_priced(text)
+        if ents is None:
+            return "register report without title: %r" % text[:300]
+        if len(ents) != len(mv):
+            return "register: %d entries printed, model has %d" % (len(ents), len(mv))
+        for k, (e, m) in enumerate(zip(ents, mv)):
+            if e.get("garbled") is not None or e["ts"] is None:
+                return "register entry %d garbled: %s" % (k, str(e.get("garbled"))[:120])
+            x = (common.register_ts_ns(e["ts"]) - off * 10 ** 9, e["code"], e["desc"], e["uuid"])
+            y = (int(m["ns"]), m["code"], m["desc"], m["uuid"])
+            if x != y:
+                return "register entry %d header differs: impl=%s model=%s" % (k, x, y)
+            rows = [canon_reg_row(r) for r in e["rows"]]
+            # model row: [account, amount, posting commodity, rate|null, running total, shown commodity]
+            mrows = [(a, common.dec_norm(v), (pcm if pcm != cm else None), (rt if pcm != cm else None), common.dec_norm(t), cm)
+                     for a, v, pcm, rt, t, cm in m["rows"]]
+            if rows != mrows:
+                return "register entry %d rows differ: impl=%s model=%s" % (k, str(rows)[:500], str(mrows)[:500])
+        return None
+
+    # ---------------------------------------------------------------------------------------------
+    # journal-level cases: the property on the implementation's reports alone
+    def spec_convert(self, case, txns):
+        """convert the accepted postings with the documented rate (python `rate_at`).  Returns
+        {"txns": [{ns, hdr, orig: [...], posts: [{acct, comm, amount(Fraction), rate}]}], "meta": [(time ns|None, src, value)]},
+        or a string: "ambiguous" (duplicate key with different rates is the one selected), "inexact" (a product outside
+        the exact path of rust_decimal: outside the property's numeric domain)"""
+        lookup, rc = case["lookup"], case["report_commodity"]
+        before_ns = int(case["before_ns"]) if case.get("before_ns") is not None else None
+        entries = [(int(e["ns"]), e["base"], e["rate"], e["target"]) for e in case["prices"]]
+        applied, used = {}, set()
+        out = []
+        for t in txns:
+            tns = int(t["ts"]["ns"])
+            posts = []
+            for p in t["posts"]:
+                src = p["comm"]
+                used.add(src)
+                ra = None
+                if lookup != "none" and rc is not None and src != "" and src != rc:
+                    ra = rate_at(entries, src, rc, p_of(lookup, before_ns, tns))
+                if ra is None:
+                    posts.append({"acct": p["acct"], "comm": src, "amount": F(p["amount"]), "text": p["amount"], "rate": None})
+                    continue
+                best_ns, rates = ra
+                if len({F(x) for x in rates}) > 1 or len(set(rates)) > 1:
+                    return "ambiguous"
+                ca, sa = c02.dnum(p["amount"])
+                cb, sb = c02.dnum(rates[0])
+                if ca != 0 and cb != 0 and (sa + sb > 28 or abs(ca * cb) > common.MAX96):
+                    return "inexact"
+                coeff, sc = (ca * cb, sa + sb) if ca != 0 and cb != 0 else (0, 0)
+                posts.append({"acct": p["acct"], "comm": rc, "amount": F(p["amount"]) * F(rates[0]),
+                              "text": dec_text(coeff, sc), "rate": rates[0] if lookup == "txn-time" else None})
+                applied.setdefault(src, set()).add((best_ns, rates[0]))
+            out.append({"ns": tns, "t": t, "orig": t["posts"], "posts": posts})
+        if lookup == "none" or rc is None:
+            meta = []
+        elif lookup == "txn-time":
+            meta = [("At txn time", s, "- " + rc) for s in sorted(x for x in used if x not in ("", rc) and
+                                                                   any(e[1] == x and e[3] == rc for e in entries))]
+        else:
+            for s, ap in applied.items():
+                if len(ap) != 1:
+                    return "ambiguous"
+            meta = [(sorted(applied[s])[0][0], s, sorted(applied[s])[0][1] + " " + rc) for s in sorted(applied)]
+        return {"txns": out, "meta": meta}
+
+    def oracle_run(self, case, impl):
+        r = impl.get("r")
+        if r in ("PANIC", "ABORT", "TIMEOUT", "ERR"):
+            return None      # C15's / C01's business
+        lookup, rc = case["lookup"], case["report_commodity"]
+        if r == "CFGERR":
+            if lookup != "none" and (not case["prices"] or rc is None):
+                return None  # documented configuration errors: empty price file, no report commodity
+            return {"sig": "unexpected-status", "what": "valid journal + price file not processed: %s %s" % (r, (impl.get("msg") or "")[:200])}
+        if r != "OK":
+            return {"sig": "unexpected-status", "what": "valid journal + price file not processed: %s" % r}
+        if lookup != "none" and (not case["prices"] or rc is None):
+            return {"sig": "config-accepted", "what": "price conversion without %s was accepted" % ("price entries" if rc is not None else "a report commodity")}
+        out = impl["out"]
+        if out["txns"].get("r") != "OK":
+            return {"sig": "txns-output", "what": "accepted set cannot be listed: %s" % out["txns"].get("r")}
+        sc = self.spec_convert(case, out["txns"]["v"])
+        if not isinstance(sc, dict):
+            return None      # duplicate keys (outside the property's quantifier) / inexact product (F17 domain)
+        self.remember(case)
+        off = c13.FIXED[case.get("zone", "UTC")]
+        exp_meta = [((fmt_full_utc(m[0] + off * 10 ** 9) if not isinstance(m[0], str) else m[0]), m[1], m[2]) for m in sc["meta"]]
+        for kind in ("balance", "register", "balgrp"):
+            o = out[kind]
+            if o.get("r") == "PANIC":
+                continue     # overflowing sums: outside the numeric domain
+            if o.get("r") != "OK":
+                return {"sig": "report-status", "what": "%s report failed: %s %s" % (kind, o.get("r"), str(o.get("msg"))[:200])}
+            got = parse_price_metadata(o["v"])
+            if got != exp_meta:
+                return {"sig": "metadata-text", "what": "%s report prints price metadata %s, the rates applied are %s" % (
+                    kind, str(got)[:300], str(exp_meta)[:300])}
+            f = getattr(self, "chk_" + kind)(case, sc, o["v"], off)
+            if f:
+                return f
+        return None
+
+    def classify(self, f, posts, sel, prefix):
+        if f is None:
+            return None
+        if not c02.report_exact(posts, sel):
+            return {"sig": "F17:inexact-arithmetic", "what": "%s (a sum on the way is not representable: rust_decimal rounded silently)" % f["what"]}
+        return {"sig": prefix + f["sig"], "what": f["what"]}
+
+    def chk_balance(self, case, sc, text, off):
+        posts = [(c["comm"], c["acct"], c["text"]) for t in sc["txns"] for c in t["posts"]]
+        sel = set(case["msel_balance"]) if case.get("msel_balance") else None
+        return self.classify(c02.PROP.check_report(posts, sel, text, {"no_price": False}), posts, sel, "conv-balance-")
+
+    def chk_balgrp(self, case, sc, text, off):
+        sel = set(case["msel_balgrp"]) if case.get("msel_balgrp") else None
+        groups = common.parse_balgrp_report(text)
+        if groups is None:
+            return {"sig": "no-report", "what": "balance-group report text without title"}
+        exp = {}
+        for t in sc["txns"]:
+            exp.setdefault(c13.period_key(t["ns"], off, case["mgroup_by"]), []).extend(
+                (c["comm"], c["acct"], c["text"]) for c in t["posts"])
+        listed = {}
+        for k, posts in exp.items():
+            keys = {(c, a) for c, a, _ in posts}
+            for (c, a) in list(keys):
+                keys.update((c, x) for x in c02.ancestors(a))
+            if any(sel is None or a in sel for _, a in keys):
+                listed[k] = posts
+        titles = [g["title"] for g in groups]
+        if titles != sorted(listed):
+            return {"sig": "conv-group-set", "what": "printed periods %s, periods with a listed converted row: %s" % (titles, sorted(listed))}
+        for g in groups:
+            f = self.classify(c02.PROP.check_report(listed[g["title"]], sel, c13.group_body_as_balance(g), {"no_price": False}),
+                              listed[g["title"]], sel, "conv-group-")
+            if f:
+                f["what"] = "group %s: %s" % (g["title"], f["what"])
+                return f
+        return None
+
+    def chk_register(self, case, sc, text, off):
+        sel = set(case["msel_register"]) if case.get("msel_register") else None
+        ents = parse_register_priced(text)
+        if ents is None:
+            return {"sig": "no-report", "what": "register report text without title"}
+        totals, exp, inexact = {}, [], False
+        for t in sc["txns"]:
+            # NOTE-1: accumulate in the order of the *original* (commodity, account), under the *converted* key
+            pairs = sorted(zip(t["orig"], t["posts"]), key=lambda oc: (oc[0]["comm"].encode("utf-8"), oc[0]["acct"].encode("utf-8")))
+            rows = []
+            for o, c in pairs:
+                k = (c["comm"], c["acct"])
+                prev = totals.get(k)
+                totals[k] = (prev[0] + c["amount"], c02.dadd(prev[1], c02.dnum(c["text"]))) if prev else (c["amount"], c02.dnum(c["text"]))
+                if totals[k][1] is None:
+                    inexact = True
+                if sel is None or o["acct"] in sel:
+                    conv = c["comm"] != o["comm"]
+                    rows.append((o["acct"], F(o["amount"]), o["comm"] if conv else None, c["rate"] if conv else None,
+                                 totals[k][0], c["comm"]))
+            if rows:
+                exp.append((t["ns"], rows))
+        def bad(what, sig="conv-register-figures"):
+            if inexact:
+                return {"sig": "F17:inexact-arithmetic", "what": what + " (a running total is not representable)"}
+            return {"sig": sig, "what": what}
+        if len(ents) != len(exp):
+            return bad("register prints %d entries, %d transactions have a listed posting" % (len(ents), len(exp)), "conv-register-entries")
+        for e, (ns, rows) in zip(ents, exp):
+            if e.get("garbled") is not None or e["ts"] is None:
+                return {"sig": "register-text", "what": "garbled register entry: %s" % str(e.get("garbled"))[:120]}
+            if common.register_ts_ns(e["ts"]) - off * 10 ** 9 != ns:
+                return bad("register entry at %s, transaction instant %d" % (e["ts"], ns), "conv-register-entries")
+            if len(e["rows"]) != len(rows):
+                return bad("register entry %s has %d rows for %d listed postings" % (e["ts"], len(e["rows"]), len(rows)))
+            for row, x in zip(e["rows"], rows):
+                try:
+                    ok = (row["acct"] == x[0] and F(row["amount"]) == x[1] and row["base"] == x[2] and row["rate"] == x[3]
+                          and F(row["total"]) == x[4] and row["comm"] == x[5])
+                except (ValueError, ZeroDivisionError, TypeError):
+                    ok = False
+                if not ok:
+                    return bad("register row %s, expected account %s amount %s source %s rate %s running total %s %s" % (
+                        str(row), x[0], x[1], x[2], x[3], x[4], x[5]))
+        return None
+
     # -- shrinking of an oracle failure: drop transactions and price entries while the same failure remains
     def rebuild(self, case, txns, prices):
         c = dict(case)
@@ -509,6 +858,14 @@ class C07(PropBase):
         return best
 
     def nontrivial(self, case, impl):
+        if case.get("op") == "run":
+            if impl.get("r") != "OK" or impl["out"].get("txns", {}).get("r") != "OK":
+                return False
+            sc = self.spec_convert(case, impl["out"]["txns"]["v"])
+            if isinstance(sc, dict):
+                return any(c["comm"] != o["comm"] for t in sc["txns"] for o, c in zip(t["orig"], t["posts"])) or \
+                    case.get("kind", "")[3:] in BOUNDARY
+            return False
         if impl.get("r") != "OK" or impl["conv"].get("r") != "OK":
             return False
         for t in impl["conv"]["v"]["txns"]:
@@ -523,14 +880,23 @@ class C07(PropBase):
                 "instant (exactly, +-1 ns) and are written in the three timestamp notations with offsets -23:59..+23:59; "
                 "pairs: source->report commodity, inverse, chains, other targets, self rates; shuffled file order; "
                 "lookup in {txn-time, last-price, given-time, none}; 14 boundary classes; non-trivial = at least one posting "
-                "is converted or the case is a boundary class; distinct = sha256 of the implementation case line")
+                "is converted or the case is a boundary class; distinct = sha256 of the implementation case line.  "
+                "Journal-level cases (jr:*, op run, about 30% of the cases): the same journals + price files through the "
+                "balance, register and balance-group reports (all lookup kinds, all 15 boundary classes, plus same-conv-key "
+                "= one transaction posting to one account in a source commodity and in the report commodity, and selector = "
+                "exact-name account selectors per report); report zone UTC or Etc/GMT+-N, all five group-by settings; "
+                "corpus: the journal of the Lean example (Props/C07b.lean Ex) under the three lookup kinds")
 
     def trusted_base(self):
         return super().trusted_base() + [
             "the model reads price entries as (timestamp token, base, rate, target) and resolves the token itself "
             "(Model/Time.lean resolveTs, fixed-offset journal zones); the price-file grammar (text -> token) is exercised on the "
             "implementation side only; the oracle uses the instant computed independently by the python renderer",
-            "rust_decimal multiplication outside the exact domain (model answers UNDEF, case skipped)"]
+            "rust_decimal multiplication outside the exact domain (model answers UNDEF, case skipped)",
+            "journal-level cases: the model's settings get the report commodity and the price-file commodities registered "
+            "(Priced.reportSettings = the commodity side of Settings::try_from / parse_price_entry, lax mode in the generated "
+            "cases); account selectors are exact-name (regex semantics are C11's); report zones are fixed offsets; the "
+            "register text is compared number-normalised as in C03, balance / group rows and the metadata block text-exact"]
 
     def assumptions(self):
         return ["price db entries have a non-empty base commodity (guaranteed by p_identifier; hypothesis of metadata_true)",
@@ -607,6 +973,90 @@ def parse_register(text):
                 row["comm"] = rest[1]
         cur.append(row)
     return ents
+
+
+def dec_text(coeff, scale):
+    """decimal text of coeff x 10^-scale as rust_decimal stores it"""
+    neg = coeff < 0
+    digits = str(abs(coeff)).rjust(scale + 1, "0")
+    t = (digits[:-scale] + "." + digits[-scale:]) if scale else digits
+    return ("-" if neg and coeff != 0 else "") + t
+
+
+def cmp_rows(what, rows, deltas, mv):
+    """balance rows (commodity, account, own, tree) and deltas, in order and text-exact"""
+    rows = [tuple(r) for r in rows]
+    mrows = [tuple(r) for r in mv["rows"]]
+    if rows != mrows:
+        for i, (x, y) in enumerate(zip(rows, mrows)):
+            if x != y:
+                return "%s row %d differs: impl=%s model=%s" % (what, i, x, y)
+        return "%s: number of rows differs: impl=%d model=%d" % (what, len(rows), len(mrows))
+    if [tuple(x) for x in deltas] != [tuple(x) for x in mv["deltas"]]:
+        return "%s deltas differ: impl=%s model=%s" % (what, deltas, mv["deltas"])
+    return None
+
+
+def canon_reg_row(r):
+    try:
+        return (r["acct"], common.dec_norm(r["amount"]), r["base"], r["rate"], common.dec_norm(r["total"]), r["comm"])
+    except Exception:
+        return ("?", str(r))
+
+
+_REG_HDR = re.compile(r"^(\d{4,}-\d{2}-\d{2}(?: \d{2}:\d{2}:\d{2}(?:\.\d+)?)?)(?: \(([^)]*)\))?(?: '(.*))?$")
+
+
+def parse_register_priced(text, title="REGISTER"):
+    """-> entries {ts, code, desc, uuid, rows [{acct, amount, base, rate, total, comm}]} of a register report with the
+    price conversion columns (`account amount [source-commodity [@ rate]] running-total [commodity]`), or None"""
+    lines = text.split("\n")
+    try:
+        i = lines.index(title)
+    except ValueError:
+        return None
+    entries, cur = [], None
+    indent = " " * 12
+    for ln in lines[i + 2:]:
+        if cur is None:
+            if ln == "":
+                continue
+            m = _REG_HDR.match(ln)
+            if not m:
+                entries.append({"ts": None, "code": None, "desc": None, "uuid": None, "rows": [], "garbled": ln})
+                continue
+            cur = {"ts": m.group(1), "code": m.group(2), "desc": m.group(3), "uuid": None, "rows": []}
+            continue
+        if ln.startswith(indent + "# uuid: "):
+            cur["uuid"] = ln[len(indent) + 8:]
+        elif ln.startswith(indent + "# ") or ln.startswith(indent + "; ") or ln == indent + ";":
+            pass
+        elif ln.startswith(indent):
+            tok = ln.split()
+            row = {"acct": tok[0], "amount": tok[1] if len(tok) > 1 else None, "base": None, "rate": None, "total": None, "comm": ""}
+            rest = tok[2:]
+            if rest and not is_num(rest[0]):
+                row["base"] = rest[0]
+                rest = rest[1:]
+                if rest and rest[0] == "@":
+                    row["rate"] = rest[1] if len(rest) > 1 else None
+                    rest = rest[2:]
+            if rest:
+                row["total"] = rest[0]
+                if len(rest) > 1:
+                    row["comm"] = rest[1]
+                if len(rest) > 2:
+                    row["garbled"] = ln
+            cur["rows"].append(row)
+        elif (ln and set(ln) == {"-"}) or (ln == "" and not cur["rows"]):
+            entries.append(cur)
+            cur = None
+        else:
+            cur["garbled"] = ln
+    if cur is not None:
+        cur["garbled"] = "unterminated entry"
+        entries.append(cur)
+    return entries
 
 
 PROP = C07()
